@@ -19,7 +19,7 @@ def generate(c):
         c.tool_error(f"Analyzer BFS failed: {r.violated} {r.error_text} {r.raw_tail[-800:]}")
     cases = list(r.tagged.get("CASE", []))
     stats = {"bfs_states": r.distinct, "bfs_programs": len(cases)}
-    nsim = 150 if c.quick else 3000
+    nsim = 80 if c.quick else 3000
     s = run_tlc("analyzer", "MCAnalyzer", "MCAnalyzer_sim.cfg", workers=1, timeout=3000, xss="512m", simulate=nsim, depth=14, seed=c.seed, keep_tags={"CASE"})
     if s.timed_out or s.violated:
         c.tool_error(f"Analyzer simulation failed: {s.violated} {s.error_text} {s.raw_tail[-600:]}")
@@ -99,16 +99,27 @@ def compare(case, o):
         res.append(("C07", "symbols", "symbols created differ from the declarations of the program", {"expected": [s["name"] for s in exp_syms][7:], "observed": [s["name"] for s in ob["symbols"]][7:]}))
     elif json.dumps(er) != json.dumps(orf):
         res.append(("C07", "resolution", "an identifier use or declaration refers to a different symbol than lexical scoping prescribes", {"expected": er, "observed": orf}))
-    ec = collections.Counter(k for k in case["diags"] if k in C07_KINDS); oc = collections.Counter(k for k in ob["diags"] if k in C07_KINDS)
-    if ec != oc:
-        res.append(("C07", "diagnostics", "undefined / redeclaration diagnostics differ", {"expected": dict(ec), "observed": dict(oc)}))
+    # C07: counts required by Scoping (R, read from the program alone): undefined uses, duplicate declarations, symbols created
+    oc = collections.Counter(ob["diags"])
+    n_undef = oc["UndefVarError"] + oc["UndefGateError"]
+    if "undef" in case and (n_undef != case["undef"] or oc["RedeclarationError"] != case["redecl"] or len(ob["symbols"]) != case["nsyms"]):
+        res.append(("C07", "diagnostics", "undefined / redeclaration diagnostics or number of symbols differ from what lexical scoping requires",
+                    {"required": {"undefined": case["undef"], "redeclarations": case["redecl"], "symbols": case["nsyms"]},
+                     "observed": {"undefined": n_undef, "redeclarations": oc["RedeclarationError"], "symbols": len(ob["symbols"])}}))
     # C09 (part): declared types recorded
     if [s["type"] for s in exp_syms] != [s["type"] for s in ob["symbols"]] and not any(r[0] == "C07" for r in res):
         res.append(("C09", "types", "symbol table records a different type than declared", {"expected": exp_syms[7:], "observed": ob["symbols"][7:]}))
-    # C13: usage-rule diagnostics multiset
-    ec = collections.Counter(k for k in case["diags"] if k in C13_KINDS); oc = collections.Counter(k for k in ob["diags"] if k in C13_KINDS)
-    if ec != oc:
-        res.append(("C13", "diagnostics", "usage-rule diagnostics differ", {"expected": dict(ec), "observed": dict(oc)}))
+    # C13: UsageRules (R) gives for every kind the interval of required diagnostics; the machine spec's exact multiset is drift detection only
+    oc13 = collections.Counter(k for k in ob["diags"] if k in C13_KINDS)
+    if "need" in case:
+        bad = {k: {"required": [v["min"], v["max"]], "observed": oc13.get(k, 0)} for k, v in case["need"].items() if not (v["min"] <= oc13.get(k, 0) <= v["max"])}
+        extra = {k: n for k, n in oc13.items() if k not in case["need"]}
+        if bad or extra:
+            res.append(("C13", "diagnostics", "usage-rule diagnostics are not those the rules require", {"out_of_interval": bad, "unexpected_kinds": extra}))
+    else:
+        ec = collections.Counter(k for k in case["diags"] if k in C13_KINDS)
+        if ec != oc13:
+            res.append(("C13", "diagnostics", "usage-rule diagnostics differ", {"expected": dict(ec), "observed": dict(oc13)}))
     # C06: structure, order, kinds
     if shape_of(case["skel"]) != shape_of(ob["skel"]):
         dev = json.loads(json.dumps(shape_of(case["skel"])).replace('"Power"', '"Concatenation"'))   # Dev_PowIsConcat
@@ -124,7 +135,7 @@ def compare(case, o):
                     ("rename_equal", "result changes under consistent renaming"), ("prefix_ok", "result for a prefix is not a prefix of the result")):
         if not o[f]:
             res.append(("C17", f, what, {"variant_text": o.get(f.split("_")[0] + "_text", "")}))
-    # model drift (order of diagnostics, other kinds): informational
+    # model drift (order of diagnostics, counts inside the freedom R leaves, other kinds): informational
     if case["diags"] != ob["diags"] and not res:
         res.append(("DRIFT", "diag_order", "diagnostics differ from the machine spec in order or in kinds no property constrains", {"expected": case["diags"], "observed": ob["diags"]}))
     return res
